@@ -69,6 +69,26 @@ def nontrivial(res):
                 st.get("too_large") or st.get("quiet_checks"))
 
 
+def robust_diff(ctx, tag, header, fn, cases, in_enc, out_enc, eqb, shard, batch=800):
+    """ctx.diff_cases in batches; a batch whose coqc processes produced no output (killed on an overloaded machine)
+    is evaluated again, up to three times, before it counts as a broken obligation"""
+    bad = []
+    for k in range(0, len(cases), batch):
+        chunk = cases[k:k + batch]
+        for attempt in range(3):
+            n = len(ctx.obligations)
+            b = ctx.diff_cases("%s_%d" % (tag, k // batch), header, fn, chunk, in_enc, out_enc, eqb, shard=shard)
+            if b is not None:
+                bad += [k + i for i in b]
+                break
+            if attempt < 2:
+                del ctx.obligations[n:]
+                ctx.notes.append("model evaluation of batch %s/%d repeated" % (tag, k // batch))
+        else:
+            return None
+    return bad
+
+
 def report(ctx, seen, what, replay, key=None):
     """at most three replays per kind of failure"""
     key = key or what.split(" (script seed")[0]
@@ -124,8 +144,8 @@ def run_scripts(ctx, jobs, tag, procs, seen):
         cases.append(((job["cfg"], res["events"]), res["obs"]))
         idx.append(i)
     if cases:
-        bad = ctx.diff_cases("c20_" + tag, x_c20.HEADER, "play", cases, x_c20.enc_case_in, x_c20.enc_case_out,
-                             "play_eqb", shard=40)
+        bad = robust_diff(ctx, "c20" + tag, x_c20.HEADER, "play", cases, x_c20.enc_case_in, x_c20.enc_case_out,
+                          "play_eqb", shard=40)
         if bad is not None:
             ctx.traces_validated += len(cases) - len(bad)
             ctx.obligation("correspondence:%s" % tag, not bad, "model and implementation differ on %d scripts" % len(bad))
@@ -184,8 +204,8 @@ def run(ctx):
             if r["status"] == 413 and not (case["internal"] and ml > 0 and a[0] == "int" and a[1] > ml):
                 report(ctx, seen, "413 for a request that does not exceed max_content_length",
                        dict(kind="gate", case=case, result=r))
-        bad = ctx.diff_cases("c20_gate", x_c20.HEADER, "gate_out", pairs, x_c20.enc_gate_in, x_c20.enc_gate_out,
-                             "gate_out_eqb", shard=700)
+        bad = robust_diff(ctx, "c20gate", x_c20.HEADER, "gate_out", pairs, x_c20.enc_gate_in, x_c20.enc_gate_out,
+                          "gate_out_eqb", shard=700, batch=7000)
         if bad is not None:
             ctx.obligation("correspondence:gate", not bad, "gate model differs on %d cases, e.g. %r" % (
                 len(bad), [(gcases[b], gres["results"][b]) for b in bad[:3]]))
